@@ -35,7 +35,8 @@ Section M.
     let l := if 32 <? len then 32 else len in
     let* bytes := rd_bytes rd (Z.to_nat l) data in
     let null_ssid := forallb (fun b => b =? 0) bytes in
-    Done (put0 bytes old, if (len <=? 0) || null_ssid then 1 else 0).
+    (* memset(ssid, 0, 33) then memcpy: a repeated SSID element replaces the earlier one *)
+    Done (put0 bytes zero33, if (len <=? 0) || null_ssid then 1 else 0).
 
   Definition set_enc (b : bss) (e : Z) : bss :=
     {| b_transmitter := b_transmitter b; b_receiver := b_receiver b; b_bssid := b_bssid b; b_ssid := b_ssid b;
@@ -58,6 +59,8 @@ Section M.
 
   (* libwifi_bss_handle_msft_tag(bss, msft_data = data, msft_len = len); the type is an int8_t *)
   Definition handle_msft (b : bss) (data len : Z) : res (outcome bss) :=
+    (* the OUI and type must be there before the type can be looked at *)
+    if len <? sizeof_libwifi_tag_vendor_header then Done (Err (- EINVAL)) else
     let* ty := rd (data + 3) in
     if ty =? c_MICROSOFT_OUI_TYPE_WPA then
       let b1 := set_enc b (Z.lor (clear_wep (b_enc b)) c_WPA) in
@@ -174,7 +177,7 @@ Definition parse_beacon (f : frame) :=
     off_libwifi_beacon_fixed_parameters__capabilities_information true.
 Definition parse_probe_resp (f : frame) :=
   parse_bss_kind f c_SUBTYPE_PROBE_RESP sizeof_libwifi_probe_resp_fixed_parameters
-    off_libwifi_probe_resp_fixed_parameters__capabilities_information false.
+    off_libwifi_probe_resp_fixed_parameters__capabilities_information true.
 Definition parse_assoc_resp (f : frame) :=
   parse_bss_kind f c_SUBTYPE_ASSOC_RESP sizeof_libwifi_assoc_resp_fixed_parameters
     off_libwifi_assoc_resp_fixed_parameters__capabilities_information true.
@@ -189,7 +192,7 @@ Definition parse_sta_kind (f : frame) (st fixed : Z) (need_fixed : bool) : res (
   if need_fixed && (f_len f <=? f_header_len f + fixed) then Done (Err (- EINVAL)) else
   let tags := zskipn fixed (f_body f) in
   let s := {| s_channel := 0; s_randomized := (if Z.land (znth tx 0) 2 =? 0 then 0 else 1); s_transmitter := tx;
-              s_receiver := zero6; s_bssid := hdr_addr f A3; s_ssid := zero33; s_broadcast_ssid := 0; s_tags := tags |} in
+              s_receiver := hdr_addr f A1; s_bssid := hdr_addr f A3; s_ssid := zero33; s_broadcast_ssid := 0; s_tags := tags |} in
   run_sta s tags.
 Definition parse_probe_req (f : frame) := parse_sta_kind f c_SUBTYPE_PROBE_REQ 0 false.
 Definition parse_assoc_req (f : frame) :=
